@@ -96,35 +96,7 @@ func (c *Client) Open(key, typ, mode string) *DT {
 			d.Errs = append(d.Errs, errs...)
 			d.mu.Unlock()
 		})
-	var dt orda.Datatype
-	switch typ + "/" + mode {
-	case "counter/" + Create:
-		dt = c.Cli.CreateCounter(key, h)
-	case "counter/" + Subscribe:
-		dt = c.Cli.SubscribeCounter(key, h)
-	case "counter/" + SubscribeOrCreate:
-		dt = c.Cli.SubscribeOrCreateCounter(key, h)
-	case "map/" + Create:
-		dt = c.Cli.CreateMap(key, h)
-	case "map/" + Subscribe:
-		dt = c.Cli.SubscribeMap(key, h)
-	case "map/" + SubscribeOrCreate:
-		dt = c.Cli.SubscribeOrCreateMap(key, h)
-	case "list/" + Create:
-		dt = c.Cli.CreateList(key, h)
-	case "list/" + Subscribe:
-		dt = c.Cli.SubscribeList(key, h)
-	case "list/" + SubscribeOrCreate:
-		dt = c.Cli.SubscribeOrCreateList(key, h)
-	case "doc/" + Create:
-		dt = c.Cli.CreateDocument(key, h)
-	case "doc/" + Subscribe:
-		dt = c.Cli.SubscribeDocument(key, h)
-	case "doc/" + SubscribeOrCreate:
-		dt = c.Cli.SubscribeOrCreateDocument(key, h)
-	default:
-		panic("bad type/mode " + typ + "/" + mode)
-	}
+	dt := OpenRaw(c.Cli, key, typ, mode, h)
 	if dt == nil || isNilDatatype(dt) {
 		return nil
 	}
@@ -137,6 +109,43 @@ func (c *Client) Open(key, typ, mode string) *DT {
 	c.DTs = append(c.DTs, d)
 	return d
 }
+
+// OpenRaw opens a datatype through the public client API with the given handlers.
+func OpenRaw(cli orda.Client, key, typ, mode string, h *orda.Handlers) orda.Datatype {
+	var dt orda.Datatype
+	switch typ + "/" + mode {
+	case "counter/" + Create:
+		dt = cli.CreateCounter(key, h)
+	case "counter/" + Subscribe:
+		dt = cli.SubscribeCounter(key, h)
+	case "counter/" + SubscribeOrCreate:
+		dt = cli.SubscribeOrCreateCounter(key, h)
+	case "map/" + Create:
+		dt = cli.CreateMap(key, h)
+	case "map/" + Subscribe:
+		dt = cli.SubscribeMap(key, h)
+	case "map/" + SubscribeOrCreate:
+		dt = cli.SubscribeOrCreateMap(key, h)
+	case "list/" + Create:
+		dt = cli.CreateList(key, h)
+	case "list/" + Subscribe:
+		dt = cli.SubscribeList(key, h)
+	case "list/" + SubscribeOrCreate:
+		dt = cli.SubscribeOrCreateList(key, h)
+	case "doc/" + Create:
+		dt = cli.CreateDocument(key, h)
+	case "doc/" + Subscribe:
+		dt = cli.SubscribeDocument(key, h)
+	case "doc/" + SubscribeOrCreate:
+		dt = cli.SubscribeOrCreateDocument(key, h)
+	default:
+		panic("bad type/mode " + typ + "/" + mode)
+	}
+	return dt
+}
+
+// IsNilDatatype reports a nil datatype behind the interface value.
+func IsNilDatatype(dt orda.Datatype) bool { return dt == nil || isNilDatatype(dt) }
 
 func isNilDatatype(dt orda.Datatype) bool {
 	defer func() { recover() }()
